@@ -20,7 +20,14 @@ EXTENDS Integers, Sequences, FiniteSets, TLC
 
 CONSTANTS MaxId,      \* max_request_id: ids are 0..MaxId, at most MaxId may be in flight
           InitFree,   \* size of the initial id deque (ids 0..InitFree-1); more are created on demand
-          Reqs        \* request names
+          Reqs,       \* request names
+          CPReqs,     \* the requests that use DSE continuous paging (several pages arrive on one stream)
+          MaxPages,   \* a continuous-paging answer has 1..MaxPages pages
+          CloseFailsSessions   \* TRUE: an explicit close() fails open continuous-paging sessions (what C10 asks for);
+                               \* FALSE: only defunct() does - Deviation_CloseLeavesSessions, what the pinned code does
+                               \* (every reactor's close() calls error_all_requests only); see known_findings.json
+
+ASSUME CPReqs \subseteq Reqs
 
 ASSUME InitFree \in 1..(MaxId + 1)
 
@@ -37,9 +44,12 @@ VARIABLES free,      \* Seq(Ids): the deque of recycled / not yet used ids (requ
           rid,       \* per request: its stream id (or -1)
           got,       \* per request: set of answers delivered to its handler (named by the request they answer)
           errs,      \* per request: number of connection-error invocations of its handler
+          cps,       \* _continuous_paging_sessions: function from a subset of Ids to the request whose session owns the stream
+          pages,     \* per request: pages its paging session has received
+          cperr,     \* per request: connection errors delivered to its paging session
           defunct, closed,
           act        \* last action, for replay
-vars == <<free, highest, inflight, reqs, orphans, srv, st, rid, got, errs, defunct, closed, act>>
+vars == <<free, highest, inflight, reqs, orphans, srv, st, rid, got, errs, cps, pages, cperr, defunct, closed, act>>
 
 Range(f) == {f[x] : x \in DOMAIN f}
 SeqSet(s) == {s[i] : i \in 1..Len(s)}
@@ -57,6 +67,9 @@ Init ==
     /\ rid = [r \in Reqs |-> -1]
     /\ got = [r \in Reqs |-> {}]
     /\ errs = [r \in Reqs |-> 0]
+    /\ cps = <<>>
+    /\ pages = [r \in Reqs |-> 0]
+    /\ cperr = [r \in Reqs |-> 0]
     /\ defunct = FALSE
     /\ closed = FALSE
     /\ act = A("Init", None, -1)
@@ -76,7 +89,7 @@ Borrow(r) ==
        /\ act' = A("Borrow", r, id)
     /\ inflight' = inflight + 1
     /\ st' = [st EXCEPT ![r] = "borrowed"]
-    /\ UNCHANGED <<reqs, orphans, srv, got, errs, defunct, closed>>
+    /\ UNCHANGED <<reqs, orphans, srv, got, errs, cps, pages, cperr, defunct, closed>>
 
 (* Connection.send_msg from ResponseFuture._query *)
 Send(r) ==
@@ -91,11 +104,12 @@ Send(r) ==
             /\ srv' = srv \cup {<<rid[r], r>>}
             /\ UNCHANGED inflight
     /\ act' = A("Send", r, rid[r])
-    /\ UNCHANGED <<free, highest, orphans, rid, got, errs, defunct, closed>>
+    /\ UNCHANGED <<free, highest, orphans, rid, got, errs, cps, pages, cperr, defunct, closed>>
 
 (* Connection.process_msg for the answer to request q on stream id (whole callback, loop thread) *)
 Respond(id, q) ==
     /\ <<id, q>> \in srv
+    /\ q \notin CPReqs
     /\ ~Dead
     /\ srv' = srv \ {<<id, q>>}
     /\ LET wasOrphan == id \in orphans
@@ -112,38 +126,71 @@ Respond(id, q) ==
                /\ inflight' = inflight - released
                /\ act' = A("RespondLate", q, id)
     /\ free' = Append(free, id)
-    /\ UNCHANGED <<highest, rid, errs, defunct, closed>>
+    /\ UNCHANGED <<highest, rid, errs, cps, pages, cperr, defunct, closed>>
+
+(* Continuous paging (DSE): the node streams several pages on the request's stream.  The first page goes *)
+(* to the request's handler, which returns the connection to the pool (in_flight -= 1) and registers a   *)
+(* ContinuousPagingSession that owns the stream from then on; later pages go to the session.  The id is  *)
+(* recycled only when the page flagged "last" has been processed.                                         *)
+RespondPage(id, q, last) ==
+    /\ <<id, q>> \in srv
+    /\ q \in CPReqs
+    /\ ~Dead
+    /\ srv' = IF last THEN srv \ {<<id, q>>} ELSE srv
+    /\ IF id \in DOMAIN cps
+       THEN LET r == cps[id] IN
+            /\ pages[r] < MaxPages
+            /\ (pages[r] + 1 = MaxPages => last)
+            /\ pages' = [pages EXCEPT ![r] = @ + 1]
+            /\ cps' = IF last THEN Drop(cps, id) ELSE cps
+            /\ act' = A(IF last THEN "LastPage" ELSE "Page", r, id)
+            /\ UNCHANGED <<reqs, got, st, inflight>>
+       ELSE /\ id \in DOMAIN reqs
+            /\ (MaxPages = 1 => last)
+            /\ LET r == reqs[id] IN
+               /\ reqs' = Drop(reqs, id)
+               /\ got' = [got EXCEPT ![r] = @ \cup {q}]
+               /\ st' = [st EXCEPT ![r] = "done"]
+               /\ pages' = [pages EXCEPT ![r] = 1]
+               /\ cps' = IF last THEN cps ELSE (id :> r) @@ cps
+               /\ act' = A(IF last THEN "OnlyPage" ELSE "FirstPage", r, id)
+            /\ inflight' = inflight - 1
+    /\ free' = IF last THEN Append(free, id) ELSE free
+    /\ UNCHANGED <<highest, orphans, rid, errs, cperr, defunct, closed>>
 
 (* ResponseFuture._on_timeout (whole callback, loop thread) *)
 Timeout(r) ==
     /\ st[r] = "sent"
+    /\ r \notin CPReqs          \* scope: client timeouts of continuous-paging requests are not modelled
     /\ ~Dead
     /\ rid[r] \in DOMAIN reqs /\ reqs[rid[r]] = r
     /\ reqs' = Drop(reqs, rid[r])
     /\ orphans' = orphans \cup {rid[r]}
     /\ st' = [st EXCEPT ![r] = "timedout"]
     /\ act' = A("Timeout", r, rid[r])
-    /\ UNCHANGED <<free, highest, inflight, srv, rid, got, errs, defunct, closed>>
+    /\ UNCHANGED <<free, highest, inflight, srv, rid, got, errs, cps, pages, cperr, defunct, closed>>
 
 (* Connection.defunct / close: every registered handler gets one connection error; the request's     *)
 (* error handling returns the connection to the pool (in_flight -= 1 per errored request).           *)
-FailAll(name) ==
+FailAll(name, failSessions) ==
     /\ ~Dead
     /\ LET victims == Range(reqs) IN
        /\ errs' = [r \in Reqs |-> IF r \in victims THEN errs[r] + 1 ELSE errs[r]]
        /\ st' = [r \in Reqs |-> IF r \in victims THEN "errored" ELSE st[r]]
        /\ inflight' = inflight - Cardinality(victims)
+    /\ cperr' = [r \in Reqs |-> IF failSessions /\ r \in Range(cps) THEN cperr[r] + 1 ELSE cperr[r]]   \* error_all_cp_sessions
     /\ reqs' = <<>>
     /\ srv' = {}                               \* the socket is gone: nothing more will arrive
     /\ act' = A(name, None, -1)
-    /\ UNCHANGED <<free, highest, orphans, rid, got>>
+    /\ UNCHANGED <<free, highest, orphans, rid, got, cps, pages>>
 
-SocketError == FailAll("SocketError") /\ defunct' = TRUE /\ closed' = TRUE
-Close       == FailAll("Close") /\ closed' = TRUE /\ UNCHANGED defunct
+SocketError == FailAll("SocketError", TRUE) /\ defunct' = TRUE /\ closed' = TRUE
+Close       == FailAll("Close", CloseFailsSessions) /\ closed' = TRUE /\ UNCHANGED defunct
 
 Next ==
     \/ \E r \in Reqs : Borrow(r) \/ Send(r) \/ Timeout(r)
     \/ \E id \in Ids, q \in Reqs : Respond(id, q)
+    \/ \E id \in Ids, q \in Reqs, last \in BOOLEAN : RespondPage(id, q, last)
     \/ SocketError
     \/ Close
 
@@ -157,7 +204,7 @@ TypeOK ==
     /\ DOMAIN reqs \subseteq Ids
 
 InUse == {rid[r] : r \in {x \in Reqs : st[x] \in {"borrowed", "sent"}}} \cup orphans
-        \cup {m[1] : m \in srv}
+        \cup {m[1] : m \in srv} \cup DOMAIN cps
 
 UniqueIds ==
     /\ \A a, b \in Reqs : a # b /\ st[a] \in {"borrowed", "sent"} /\ st[b] \in {"borrowed", "sent"} => rid[a] # rid[b]
@@ -168,8 +215,10 @@ NoCrossTalk == \A r \in Reqs : got[r] \subseteq {r}
 
 IdBound == highest <= MaxId /\ \A r \in Reqs : rid[r] <= MaxId
 
-\* the capacity check alone keeps get_request_id inside the id space
-NoIdExhaustion == (~Dead /\ inflight < MaxId) => (free # <<>> \/ highest < MaxId)
+\* the capacity check alone keeps get_request_id inside the id space (streams held by continuous-paging
+\* sessions are not counted in in_flight, so this is only claimed while no session is open; with sessions the
+\* code's assert refuses the borrow instead - the id bound itself, IdBound, always holds)
+NoIdExhaustion == (~Dead /\ inflight < MaxId /\ cps = <<>>) => (free # <<>> \/ highest < MaxId)
 
 Accounting ==
     ~Dead => inflight = Cardinality({r \in Reqs : st[r] \in {"borrowed", "sent"}}) + Cardinality(orphans)
@@ -180,19 +229,23 @@ Quiescent == /\ \A r \in Reqs : st[r] \notin {"borrowed", "sent"}
 Recycled == (Quiescent /\ ~Dead) => /\ inflight = 0
                                    /\ orphans = {}
                                    /\ reqs = <<>>
+                                   /\ cps = <<>>
                                    /\ SeqSet(free) = 0..highest
 
 (* C10 *)
-FailedOnce == \A r \in Reqs : errs[r] <= 1
+FailedOnce == \A r \in Reqs : errs[r] <= 1 /\ cperr[r] <= 1
 AllFailed  == Dead => /\ reqs = <<>>
                       /\ \A r \in Reqs : st[r] # "sent"
                       /\ \A r \in Reqs : st[r] = "errored" <=> errs[r] = 1
-NothingAfterDeath == [][Dead => got' = got]_vars
+                      /\ (defunct \/ CloseFailsSessions) => \A r \in Range(cps) : cperr[r] = 1   \* open paging sessions too
+NothingAfterDeath == [][Dead => got' = got /\ pages' = pages]_vars
 SendRefusedWhenDead == [][\A r \in Reqs : (Dead /\ st[r] = "borrowed" /\ st'[r] # "borrowed") => st'[r] = "refused"]_vars
 
 \* vacuity witnesses (each must be violated = reachable)
 Witness_LateResponse == act.name # "RespondLate"
 Witness_Grow == ~(highest = MaxId - 1 /\ highest > InitFree - 1)
 Witness_ErroredTwoAtOnce == ~(Cardinality({r \in Reqs : st[r] = "errored"}) >= 2)
+Witness_SessionOpen == cps = <<>>
+Witness_SessionFailed == \A r \in Reqs : cperr[r] = 0
 Witness_Refused == \A r \in Reqs : st[r] # "refused"
 =============================================================================
